@@ -13,6 +13,7 @@ import (
 	"pgregory.net/rapid"
 
 	"verif/ev"
+	"verif/gdsl"
 	"verif/pgen"
 	"verif/world"
 )
@@ -33,6 +34,34 @@ func genC04(t *rapid.T, all bool) c04Case {
 	inits := []uint64{0, 0, 1, c.Seg - 1, c.Seg, c.Seg + 1, 2*c.Seg + 2}
 	c.Prog = pgen.Gen(t, pgen.Opts{MinMods: 1, MaxMods: 4, InitialBlocks: inits, ForceStoreOutput: true})
 	c.Run = genRun(t, c.Prog, c.Seg, c.Head)
+	// bias towards what the statement is about: production requests whose range is back-filled entirely or
+	// crosses the hand-off, stops off the segment boundaries, outputs that are empty on some blocks
+	if rapid.IntRange(0, 3).Draw(t, "bias") > 0 {
+		r := &c.Run
+		r.Prod = rapid.IntRange(0, 4).Draw(t, "biasprod") > 0
+		if r.Stop == 0 || r.Stop <= r.Start+1 {
+			r.Stop = r.Start + 2 + rapid.Uint64Range(0, 2*c.Seg).Draw(t, "biaslen")
+		}
+		if r.Stop > c.Head {
+			r.Stop = c.Head
+		}
+		if r.Stop%c.Seg == 0 && r.Stop > r.Start+1 {
+			r.Stop--
+		}
+		switch rapid.IntRange(0, 2).Draw(t, "biasfinal") {
+		case 0:
+			r.Final = c.Head // everything final: the whole range is back-filled
+		case 1:
+			r.Final = r.Start + (r.Stop-r.Start)/2 // hand-off inside the range
+		default:
+			r.Final = 0
+		}
+		b := c.Prog.Beh[r.Output]
+		if b.Sparse == 0 {
+			b.Sparse = rapid.SampledFrom([]uint64{2, 3}).Draw(t, "biassparse")
+			c.Prog.Beh[r.Output] = b
+		}
+	}
 	c.ResumeFresh = rapid.IntRange(0, 3).Draw(t, "fresh") == 0
 	if !all {
 		n := rapid.IntRange(2, 5).Draw(t, "nresume")
@@ -52,18 +81,25 @@ func genC04(t *rapid.T, all bool) c04Case {
 	return c
 }
 
-// alwaysRuns: the module runs on every block from its initial block (it reads the block or the clock and has no filter).
+// alwaysRuns: the module runs on every block from its initial block: no filter, and it reads the block, or the
+// clock is its only value input (the engine skips a module whose other value inputs are all absent on a block).
 func alwaysRuns(p pgen.Prog, name string) bool {
 	m := p.Mod(name)
 	if m.Filter != nil {
 		return false
 	}
+	clock, others := false, 0
 	for _, in := range m.Inputs {
-		if in.T == "source" {
+		switch {
+		case in.T == "source" && in.Ref == gdsl.BlockType:
 			return true
+		case in.T == "source":
+			clock = true
+		case in.T == "map", in.T == "store" && in.Mode == "deltas":
+			others++
 		}
 	}
-	return false
+	return clock && others == 0
 }
 
 type c04Stats struct {
